@@ -2,13 +2,18 @@
 // track slots give bit-identical per-track step histories whatever ran on the state before
 // (other events, an aborted event + reset) and whichever re-indexing order / timing /
 // status-checker option is enabled.
+#include <algorithm>
+#include <cmath>
 #include <exception>
 #include <memory>
 
 #include "corecel/Assert.hh"
+#include "celeritas/geo/GeoParams.hh"
 #include "celeritas/global/CoreParams.hh"
 #include "celeritas/global/CoreState.hh"
 #include "celeritas/global/Stepper.hh"
+#include "celeritas/user/SimpleCalo.hh"
+#include "celeritas/user/StepCollector.hh"
 
 #include "engine_common.hh"
 #include "history.hh"
@@ -26,23 +31,55 @@ using HostStepper = Stepper<MemSpace::host>;
 
 // Transport `prims` (one or more events) until drained or `max_iters` stepper calls were made.
 // Returns true if drained.
+// Slots that were empty at the pre-step point of an iteration but acted during it (status no
+// longer inactive at the post-step point): a finished track's slot doing something in a later
+// step.  Tracks are only initialised at the start of an iteration, so this never happens
+// legitimately; what a previous event left in an empty slot decides whether it does.
+std::uint64_t count_acting_empty_slots(IterRec const& it)
+{
+    std::uint64_t n = 0;
+    for (auto const& r : it.slots)
+        if (r.status[P_PRE] == 0 && r.status[P_POST] != 0)
+            ++n;
+    return n;
+}
+
 bool run_events(Problem& prob, HostStepper& step, std::vector<Primary> const& prims, HistoryRecorder* rec,
-                std::uint64_t max_iters, std::uint64_t* iters_out = nullptr)
+                std::uint64_t max_iters, std::uint64_t* iters_out = nullptr, std::uint64_t* ghosts_out = nullptr)
 {
     auto res = step(make_span(prims));
-    if (rec)
-        rec->add(prob.probes->logs[step.state().stream_id().get()].iter);
+    auto note = [&] {
+        auto const& it = prob.probes->logs[step.state().stream_id().get()].iter;
+        if (rec)
+            rec->add(it);
+        if (ghosts_out)
+            *ghosts_out += count_acting_empty_slots(it);
+    };
+    note();
     std::uint64_t it = 1;
     while (res && it < max_iters)
     {
         res = step();
-        if (rec)
-            rec->add(prob.probes->logs[step.state().stream_id().get()].iter);
+        note();
         ++it;
     }
     if (iters_out)
         *iters_out = it;
     return !res;
+}
+
+// Calorimeter over (up to four) material volumes, attached to reference and variant alike: the
+// statement covers tallies as well as histories, and a tally also sees what a finished slot does
+std::shared_ptr<SimpleCalo> attach_calo(Problem& prob)
+{
+    auto const& geo = *prob.core->geometry();
+    std::vector<Label> labels;
+    for (int v = 0; v < prob.num_volumes && labels.size() < 4; ++v)
+        if (prob.spec.volume_to_mat[v] >= 0)
+            labels.push_back(geo.id_to_label(VolumeId(v)));
+    auto calo = std::make_shared<SimpleCalo>("verif-calo-c06", labels, geo, 1);
+    StepCollector::make_and_insert(*prob.core, {calo});
+    return calo;
 }
 
 char const* order_name(int o)
@@ -90,9 +127,13 @@ int run_c06(verif::Args const& args, verif::Report& rep)
         json ctx = {{"case", c}, {"seed", cseed}, {"problem", ref_spec.to_json()}};
 
         std::shared_ptr<Problem> ref;
+
+        std::shared_ptr<SimpleCalo> ref_calo;
         try
         {
-            ref = build_problem(ref_spec, BuildOptions{});
+            BuildOptions rbo;
+            rbo.customize = [&](Problem& p) { ref_calo = attach_calo(p); };
+            ref = build_problem(ref_spec, rbo);
         }
         catch (RuntimeError const&)
         {
@@ -106,6 +147,7 @@ int run_c06(verif::Args const& args, verif::Report& rep)
         }
 
         // target event
+        std::vector<double> calo0;
         int target_event = int(rng.integer(0, ref_spec.max_events - 1));
         std::uint64_t target_unique = std::uint64_t(rng.integer(0, 1000000));
         auto tp = draw_primaries(*ref, rng, 1, target_event, 6, emax);
@@ -133,6 +175,8 @@ int run_c06(verif::Args const& args, verif::Report& rep)
                 continue;
             }
             h0 = rec.events().at(target_event);
+            for (auto e : ref_calo->calc_total_energy_deposition())
+                calo0.push_back(double(e));
         }
         catch (std::exception const& e)
         {
@@ -172,8 +216,11 @@ int run_c06(verif::Args const& args, verif::Report& rep)
             if (nprev)
                 kinds.push_back("prev-events");
             bool abort_one = want(5);
+            // how the aborted event is ended: reset_state() alone, or kill_active() + the flush
+            // steps (the non-fatal abort of the Geant4 integration) followed by reset_state()
+            bool abort_kill = abort_one && vr.coin(0.5);
             if (abort_one)
-                kinds.push_back("aborted+reset");
+                kinds.push_back(abort_kill ? "aborted+kill_active+reset" : "aborted+reset");
             if (kinds.empty())
                 kinds.push_back("fresh-rebuild");
             std::string kind;
@@ -185,7 +232,10 @@ int run_c06(verif::Args const& args, verif::Report& rep)
                                {"prev_events", nprev}, {"abort", abort_one}, {"warm_up", warm}};
             try
             {
-                auto var = build_problem(vs, BuildOptions{});
+                std::shared_ptr<SimpleCalo> var_calo;
+                BuildOptions vbo;
+                vbo.customize = [&](Problem& p) { var_calo = attach_calo(p); };
+                auto var = build_problem(vs, vbo);
                 if (var->physics_hash != ref->physics_hash)
                 {
                     rep.violation("C06/setup/physics-tables-differ",
@@ -222,13 +272,36 @@ int run_c06(verif::Args const& args, verif::Report& rep)
                     if (!pp.empty() && !pp[0].empty())
                     {
                         step.reseed(UniqueEventId{std::uint64_t(vr.integer(0, 1000000))});
-                        run_events(*var, step, pp[0], nullptr, std::uint64_t(vr.integer(1, 25)));
+                        bool drained = run_events(*var, step, pp[0], nullptr, std::uint64_t(vr.integer(1, 25)));
+                        if (abort_kill && !drained)
+                        {
+                            step.kill_active();
+                            // flush: the killed tracks are handed to the tracking cut in the next step
+                            StepperResult fr = step();
+                            for (int k = 0; fr && k < 1000; ++k)
+                            {
+                                step.kill_active();
+                                fr = step();
+                            }
+                        }
                         step.reset_state();
                     }
                 }
                 step.reseed(UniqueEventId{target_unique});
+                var_calo->clear();
                 HistoryRecorder rec(var->action_labels);
-                if (!run_events(*var, step, target, &rec, cap))
+                std::uint64_t ghosts = 0;
+                bool const drained_target = run_events(*var, step, target, &rec, cap, nullptr, &ghosts);
+                if (ghosts)
+                {
+                    vctx["acting_empty_slot_steps"] = ghosts;
+                    rep.violation("C06/finished-slot-acted/" + kind,
+                                  "during the target event a slot that was empty at the pre-step point acted in the "
+                                  "step (left-over state of an earlier event): it never does on a fresh state",
+                                  vctx);
+                    continue;
+                }
+                if (!drained_target)
                 {
                     rep.violation("C06/history-mismatch/" + kind + "/did-not-drain",
                                   "the target event drained in the reference run but hit the iteration cap "
@@ -266,6 +339,34 @@ int run_c06(verif::Args const& args, verif::Report& rep)
                                   "reference (a = reference, b = variant)",
                                   vctx);
                     continue;
+                }
+                // tallies of the target event alone (the calorimeter was cleared before it): same
+                // terms, possibly summed in another slot order: 2 eps (N + 16) sum  (as in C07)
+                {
+                    auto vc = var_calo->calc_total_energy_deposition();
+                    bool same = vc.size() == calo0.size();
+                    double worst = 0;
+                    for (std::size_t i = 0; same && i < vc.size(); ++i)
+                    {
+                        double a = calo0[i], b = double(vc[i]);
+                        double tol = 2 * 2.220446049250313e-16 * (double(h0.num_steps()) + 16) * std::max(std::fabs(a), std::fabs(b));
+                        worst = std::max(worst, std::fabs(a - b));
+                        if (!(std::fabs(a - b) <= tol))
+                            same = false;
+                    }
+                    if (!same)
+                    {
+                        vctx["calo_reference"] = calo0;
+                        std::vector<double> vv;
+                        for (auto e : vc)
+                            vv.push_back(double(e));
+                        vctx["calo_variant"] = vv;
+                        rep.violation("C06/tally-mismatch/" + kind + "/simple-calo",
+                                      "calorimeter totals of the target event differ from the fresh-state reference "
+                                      "although the per-track histories are identical",
+                                      vctx);
+                        continue;
+                    }
                 }
                 if (nontrivial)
                     rep.held(kind + "/" + family + (h0.tracks.size() >= 2 ? "/multi-track" : "/single-track"));
